@@ -580,7 +580,7 @@ def run_client(case: dict[str, Any]) -> Outcome:
 
 def main(chk: Check) -> None:
     chk.extra["patch"] = dict(_PATCH)
-    chk.explore("core", _core_cases(), run_core, quick=4000, thorough=120000)
+    chk.explore("core", _core_cases(), run_core, quick=8000, thorough=120000)
     complete = chk.enumerate("grid", grid_cases(chk.quick), run_core)
     chk.extra["grid_complete"] = bool(complete and not chk.quick)
-    chk.explore("client", _client_cases(), run_client, quick=1200, thorough=30000)
+    chk.explore("client", _client_cases(), run_client, quick=2400, thorough=30000)
